@@ -351,7 +351,7 @@ class Contract:
                  inline=(), inline_only=False, slice=None, class_attrs=None, writes=(), note="", shape_bound=4,
                  native=None, name=None, self_spec=None, max_shapes=60, crosscheck=True, refute=True, assumed=False,
                  native_call=None, cases_filter=None, gen=None, native_ok=True, compare_native=None, slice_note=None,
-                 not_decided=(), lemmas=None, ghost_after=None, finite=None, locate=None, curry=(), finite_native=None):
+                 not_decided=(), lemmas=None, ghost_after=None, finite=None, locate=None, curry=(), finite_native=None, lib=None):
         self.target = target
         self.props = list(props)
         self.params = dict(params or {})
@@ -383,6 +383,7 @@ class Contract:
         self.lemmas = dict(lemmas or {})
         self.ghost_after = dict(ghost_after or {})
         self.finite_native = finite_native  # finite_native(obligation id) -> (fails natively: bool, text)
+        self.libname = lib                # None: plain library models; 'obs': observable-valued scalars (lib_obs)
         self.finite = finite              # finite(registry) -> list of (id, ok, detail): exhaustive exact decision
         self.curry = tuple(curry)         # parameters applied to the function value returned by a lambda-returning lambda
         self.locate = locate              # locate(module) -> AST node (for code that is not a named function)
@@ -435,7 +436,13 @@ class Contract:
     def make_result(self, a, ctx):
         if self.result is None:
             return None
-        sp = self.result(a) if callable(self.result) else self.result
+        if callable(self.result):
+            try:
+                sp = self.result(a, ctx)
+            except TypeError:
+                sp = self.result(a)
+        else:
+            sp = self.result
         if isinstance(sp, Spec):
             vs = sp.variants()
             if len(vs) != 1:
